@@ -1,4 +1,5 @@
 import ShredModel.Model.Builder
+import ShredModel.Lemmas.Scenario
 /-!
 # C18 (rejections): `add` panics exactly on the two ill-formed registrations
 
@@ -117,8 +118,76 @@ theorem add_ok (b : DispatcherBuilder) (tag : SysTag) (name : String) (dep : Lis
       · exact hne h
       · rw [h] at hl; cases hl
 
-#print axioms add_ok
-#print axioms resolve_error_iff
-#print axioms add_panics_iff
 end DispatcherBuilder
 end Shred
+
+namespace Shred
+namespace Scenario
+variable (sc : Scenario)
+
+/-- **C18 (no capacity panic).** In the executed table of every registration sequence every group
+holds between one and four systems — `ArrayVec<_, 5>::push` cannot overflow, however many systems
+are funnelled into one group by their conflicts and running-time hints. -/
+theorem C18_group_capacity (st : List (List SysTag)) (hst : st ∈ sc.final.b.stages)
+    (g : List SysTag) (hg : g ∈ st) : 1 ≤ g.length ∧ g.length < maxSystemsPerGroup := by
+  obtain ⟨z, hz⟩ := sc.good
+  rw [stages_eq_of_zips hz.zips] at hst
+  obtain ⟨zst, hzst, rfl⟩ := List.mem_map.mp hst
+  obtain ⟨zg, hzg, rfl⟩ := List.mem_map.mp hg
+  exact (hz.fit zst hzst zg hzg).size
+
+/-- **C18 (no arithmetic overflow).** With running-time hints in 1..5 (the `RunningTime` enum)
+every accumulated group time is at most 20, so the `u8` sum and the `i8` casts of
+`improves_balance` are exact. -/
+theorem C18_running_time_bound (htimes : ∀ s, (sc.D s).time ≤ 5)
+    (st : List Nat) (hst : st ∈ sc.final.b.runningTime) (t : Nat) (ht : t ∈ st) : t ≤ 20 := by
+  obtain ⟨z, hz⟩ := sc.good
+  obtain ⟨s, hs1, hs2⟩ := List.getElem_of_mem hst
+  have hcol := (cols_eq hz.zips s).2.2.2.1
+  have hlen := zips_length hz.zips
+  have hlr := congrArg List.length hz.zips.lock.runningTime
+  simp only [Table.shape, List.length_map] at hlr
+  have hsz : s < z.stages.length := by omega
+  simp only [List.getD_eq_getElem?_getD, List.getElem?_eq_getElem hs1, List.getElem?_eq_getElem hsz,
+    Option.getD_some] at hcol
+  rw [← hs2, hcol] at ht
+  obtain ⟨zg, hzg, rfl⟩ := List.mem_map.mp ht
+  exact fit_time_le (hz.fit _ (List.getElem_mem hsz) zg hzg) htimes
+
+/-- **C18 (no index panic).** The target `insertion_target` returns always names an existing
+stage (and group) — `self.ids[stage]`, `self.stages[stage].groups[group]` are in bounds. -/
+theorem C18_target_in_bounds (dep : List Nat) (d : Decl) :
+    match sc.final.b.insertionTarget (sortDedup d.reads) d.writes (sc.final.b.prepDep dep) d.time with
+    | .stage s => s < sc.final.b.stages.length
+    | .group s g => ∃ st, sc.final.b.stages[s]? = some st ∧ g < st.length
+    | .newStage => True := by
+  obtain ⟨z, hz⟩ := sc.good
+  rw [insertionTarget_sim hz.zips, prepDep_sim hz.zips]
+  have hv := target_valid zJoinOk dedup z dep (sortDedup d.reads) d
+  unfold ZB.target at hv
+  have hlen := zips_length hz.zips
+  cases ht : zScan zJoinOk (sortDedup d.reads) d.writes d.time z.barrier (List.drop z.barrier z.stages)
+      (zPrepDep dedup z dep) with
+  | newStage => trivial
+  | stage s =>
+    rw [ht] at hv
+    obtain ⟨_, st, hst⟩ := hv
+    have : s < z.stages.length := (List.getElem?_eq_some_iff.mp hst).1
+    show s < sc.final.b.stages.length
+    omega
+  | group s g =>
+    rw [ht] at hv
+    obtain ⟨_, st, gk, hst, hgk⟩ := hv
+    refine ⟨st.map (·.sys), ?_, ?_⟩
+    · rw [stages_eq_of_zips hz.zips]; simp [hst]
+    · simpa using (List.getElem?_eq_some_iff.mp hgk).1
+
+end Scenario
+end Shred
+
+#print axioms Shred.DispatcherBuilder.add_ok
+#print axioms Shred.DispatcherBuilder.resolve_error_iff
+#print axioms Shred.DispatcherBuilder.add_panics_iff
+#print axioms Shred.Scenario.C18_group_capacity
+#print axioms Shred.Scenario.C18_running_time_bound
+#print axioms Shred.Scenario.C18_target_in_bounds
